@@ -29,7 +29,32 @@ import (
 	"github.com/avfs/avfs/zzverif/vsync"
 )
 
-func init() { commands["conc"] = runConc }
+func init() { commands["conc"] = runConc; commands["lockprog"] = runLockProg }
+
+// lockprog: the acquire/release sequence of single calls run alone (tie of the hand-transcribed lock
+// programs of Conc/LockProg.v, used by the C07 refutations for OrefaFS, to the real code).
+// case: <fs> | <call> ; observed: AW0 AW2 rW2 rW0 ...
+var lockProgCalls = []string{
+	"orefafs | mkdir /a/x", "orefafs | create /a/x", "orefafs | remove /a/f", "orefafs | rename /b/g /a/x",
+	"orefafs | rename /a/f /a/x", "orefafs | rename /a/f /b/x", "orefafs | link /a/f /b/x",
+	"memfs | rename /a/f /b/x", "memfs | rename /b/g /a/x",
+}
+
+func runLockProg(cfg config) {
+	o := newOut(cfg.dir, cfg.name)
+	lines := cfg.replayLines()
+	if lines == nil {
+		lines = lockProgCalls
+	}
+	for _, l := range lines {
+		f := strings.SplitN(l, " | ", 2)
+		p := cprog{fsname: strings.TrimSpace(f[0]), threads: [][]ccall{{parseCall(f[1])}}, rand: randFor(1)}
+		e := p.runWith(defaultChoice)
+		o.emit(l, strings.Join(e.s.Threads[0].Events, " "), l)
+	}
+	o.rule = "every call of the lock-program table run alone under the scheduler; its acquire/release sequence and result equal the table entry of Conc/LockProg.v"
+	o.close(cfg.name)
+}
 
 // ---- calls ---------------------------------------------------------------------------
 
@@ -528,10 +553,14 @@ func defaultChoice(en []int, last int) int {
 	return en[0]
 }
 
-func prefixChooser(prefix []int) func(en []int, last int) int {
+// divergedReplays counts executions whose schedule prefix could not be followed: the only source
+// of non-determinism under the scheduler is the map iteration order of MemFS.removeAll.
+var divergedReplays int
+
+func prefixChooser(prefix []int, diverged *bool) func(en []int, last int) int {
 	pos := 0
 	return func(en []int, last int) int {
-		if pos < len(prefix) {
+		if pos < len(prefix) && !*diverged {
 			c := prefix[pos]
 			pos++
 			for _, x := range en {
@@ -539,7 +568,8 @@ func prefixChooser(prefix []int) func(en []int, last int) int {
 					return c
 				}
 			}
-			panic("conc: schedule prefix is not replayable (non-determinism)")
+			*diverged = true
+			divergedReplays++
 		}
 		return defaultChoice(en, last)
 	}
@@ -562,9 +592,13 @@ func explore(p cprog, bound int, limit int, visit func(e *cexec)) (count int) {
 		if limit > 0 && count >= limit {
 			return
 		}
-		e := p.runWith(prefixChooser(prefix))
+		diverged := false
+		e := p.runWith(prefixChooser(prefix, &diverged))
 		count++
 		visit(e)
+		if diverged {
+			return // still a legal execution (checked above), but not the one asked for: do not branch from it
+		}
 		choices := e.s.Schedule
 		for i := len(prefix); i < len(choices); i++ {
 			last := -1
@@ -1086,5 +1120,6 @@ func (cr *concRun) finish(cfg config) {
 		o.extra[k] = v
 	}
 	o.extra["finding_signatures"] = len(fs)
+	o.extra["replays_diverged_by_map_order"] = divergedReplays
 	o.close(cfg.name)
 }
